@@ -69,6 +69,8 @@ def _cfg_from_json(d):
 
 
 def run(ctx):
+    # the parser model sits on the acceptance gates regenerated from the tree under test
+    ctx.translate({"GenRegex"})
     ctx.gate()
     props_ok, failing, log = ctx.props()
     ctx.build(["Model/Environ.vo", "Spec/Pep3333.vo"])
@@ -97,7 +99,7 @@ def run(ctx):
     ctx.oblige("K-upper: upper_str equals CPython str.upper() on latin-1 text", upper_ok)
 
     # ---- cases -----------------------------------------------------------------
-    n_own, n_http = (1800, 700) if not thorough else (40000, 14000)
+    n_own, n_http = (4000, 1500) if not thorough else (40000, 14000)
     cases = [("fixed", m, {"framing": "fixed", "version": "?", "fields": []}) for m in E.fixed_cases()]
     cases += E.build_cases(rng, n_own, n_http)
     work = []
@@ -123,6 +125,7 @@ def run(ctx):
     samples = []
     kenv_ok = True
     search_ok = True
+    direct_ok = True
     spec_cmds, spec_idx = [], []
     reals = []
     noncanon = {}
@@ -133,6 +136,14 @@ def run(ctx):
         st, items = E.real_environ(cfg, chunks, inbuf_overflow=16 if small_buf else None)
         reals.append((st, items))
         stats["status"][st] = stats["status"].get(st, 0) + 1
+        if st == "ok":
+            for dv in E.direct_violations(cfg, items):
+                direct_ok = False
+                ctx.report("direct:" + dv.split()[0] + ":" + hashlib.sha1(m).hexdigest()[:10],
+                           "the real environ violates the property directly: " + dv,
+                           {"kind": "direct", "message_hex": m.hex(), "chunks_hex": [c.hex() for c in chunks],
+                            "config": _cfg_json(cfg), "inbuf_overflow": 16 if small_buf else None,
+                            "expected": "no direct violation", "observed": dv, "failing_input_found": True})
         if ans == "unmodelled":
             stats["unmodelled_skipped"] += 1
             continue
@@ -214,6 +225,7 @@ def run(ctx):
     ctx.oblige("K-env: real WSGITask.get_environment() equals the extracted model on every generated request x configuration (dict order, wsgi.input read to EOF)", kenv_ok)
     ctx.oblige("K-env through the real HTTPChannel and Adjustments", chan_ok)
     ctx.oblige("search: real environ equals the extracted Pep3333 image computed from the raw bytes by the reference splitter", search_ok)
+    ctx.oblige("direct: on every accepted request (canonical or not) all strings are latin-1, CONTENT_LENGTH == bytes read from wsgi.input, server-defined keys carry the server's values", direct_ok)
     ctx.oblige("search exercised accepted requests", n_search > 200, "compared %d" % n_search)
 
     if not props_ok and not ctx.violations:
@@ -246,6 +258,12 @@ def replay(data):
         st, items = E.real_environ_via_channel(cfg, chunks)
     else:
         st, items = E.real_environ(cfg, chunks, inbuf_overflow=data.get("inbuf_overflow"))
+    if kind == "direct":
+        dvs = E.direct_violations(cfg, items) if items is not None else [st]
+        print("message=%r" % bytes.fromhex(data["message_hex"])[:300])
+        print("recorded: %s" % data["observed"])
+        print("now: %s" % (dvs or "no direct violation"))
+        return 1 if dvs else 0
     if kind == "search":
         rq = E.ref_split(bytes.fromhex(data["message_hex"]))
         drop = () if rq["version"] in (b"1.0", b"1.1") else ("SERVER_PROTOCOL",)
